@@ -272,6 +272,7 @@ type GoPanic struct {
 	Class string // runtime error class, "" for explicit panic()
 	Site  string
 	Msg   string
+	Stack string
 }
 
 // Machine executes one path.
@@ -926,7 +927,7 @@ func (m *Machine) reportPanic(p *GoPanic) {
 	}()
 	res, ins := m.model(q...)
 	if res == smt.Sat {
-		e.addFinding(&Finding{Harness: e.Harness, Kind: "panic", Name: name, Site: p.Site, Inputs: ins, Trace: m.traceTail(), Extra: map[string]string{"msg": p.Msg}})
+		e.addFinding(&Finding{Harness: e.Harness, Kind: "panic", Name: name, Site: p.Site, Inputs: ins, Trace: m.traceTail(), Extra: map[string]string{"msg": p.Msg, "stack": p.Stack}})
 	} else if res == smt.Unknown {
 		e.Stats.Inconclusive = append(e.Stats.Inconclusive, "panic "+name+" @ "+p.Site)
 	}
